@@ -93,8 +93,12 @@ def check(ctx):
     ctx.rule('C07.W4', 'enabling writes are followed by notify on all paths')
     ctx.rule('C07.W5', 'wait returns only through the predicate; queueNotifyCounter written only by balanced ctor/dtor')
 
+    ctx.rule('C07.W6', 'queueNotifyCounter starts at zero in every constructor')
+    from .qcommon import check_counter_zero
     for tu in ctx.tus:
         check_tu(ctx, tu)
+        check_counter_zero(ctx, tu, 'C07.W6')
+    ctx.require_min('C07.W6', 6)    # default, copy, move x 2 queue classes
 
     ctx.require_min('C07.W1', 4)    # wait, waitFor x 2 queue classes
     ctx.require_min('C07.W2', 4)
